@@ -137,15 +137,13 @@ Q q_add_sat_fb() { T x = nd<T>(); T y = nd<T>(); vf_assert((i128)k_add_sat_fb(x,
 // quotient / remainder by definition: x == q * y + r (exactly), |r| < |y|, r == 0 or sign(r) == sign(x)  (truncation towards zero).
 // Comparing against a second division circuit is not decidable by SAT beyond 8 bits (measured); the multiplicative definition is (kissat).
 // It is stated on magnitudes, |x| == |q| * |y| + rho with 0 <= rho < |y|, plus the sign rule (q == 0 or sign(q) == sign(x) xor sign(y)).
-typedef std::conditional_t<(W < 64), i64, i128> wide_t;
-typedef std::conditional_t<(W < 64), u64, unsigned __int128> uwide_t;
 static UT umag(T v) { return v < 0 ? UT(UT(0) - UT(v)) : UT(v); }
 static bool is_quot(T x, T y, T q)
 {
     bool neg = (x < 0) != (y < 0);
-    UT uq = neg ? UT(UT(0) - UT(q)) : UT(q);                 // magnitude of q under the sign rule
-    uwide_t ax = umag(x), ay = umag(y), p = uwide_t(uq) * ay;  // < 2^(2W): exact
-    return (q == 0 || (q < 0) == neg) && p <= ax && ax - p < ay;
+    UT uq = neg ? UT(UT(0) - UT(q)) : UT(q), ax = umag(x), ay = umag(y), p; // magnitudes; uq: magnitude of q under the sign rule
+    bool o = __builtin_mul_overflow(uq, ay, &p);                            // p == uq * ay exactly unless o
+    return (q == 0 || (q < 0) == neg) && !o && p <= ax && UT(ax - p) < ay;
 }
 // SG < 0: all operand signs in one query; SG = 0..3: the case (x < 0) == bit 0, (y < 0) == bit 1 (the four cases partition the domain;
 // used for the 32/64-bit signed types, where the unsplit query is not decided in time)
@@ -281,11 +279,13 @@ template <int Q4> static void slice(T m)
     if constexpr (Q4 >= 0) vf_assume(int(bits(m) >> (W - 2)) == Q4);
     if (HB >= 0) vf_assume(int(bits(m) >> (W - 8)) == HB);
 }
-// greatest common divisor: g >= 0; g == 0 iff m == n == 0; g divides |m| and |n|; every common divisor d (symbolic) is <= g
-template <typename U, ct_t<T, U> (*KF)(T, U), int Q4> static void gcd_case()
+template <int B> using uint_bits = std::conditional_t<(B <= 8), uint8_t, std::conditional_t<(B <= 16), uint16_t, std::conditional_t<(B <= 32), uint32_t, u64>>>;
+// greatest common divisor: g == 0 iff m == n == 0; otherwise 0 < g <= max(|m|, |n|), g divides |m| and |n|, and every common divisor d
+// (symbolic; d <= max(|m|, |n|) without loss of generality, so the remainders are taken in a type of max(W, WU) bits) is <= g
+template <typename U, ct_t<T, U> (*KF)(T, U), int Q4, int WU> static void gcd_case()
 {
-    typedef ct_t<T, U> C; typedef std::make_unsigned_t<C> UC; T m = nd<T>(); U n = nd<U>(); C d = nd<C>();
-    i128 am = absi(m), an = absi(n);
+    typedef ct_t<T, U> C; typedef uint_bits<(W > WU ? W : WU)> R; T m = nd<T>(); U n = nd<U>(); R d = nd<R>();
+    i128 am = absi(m), an = absi(n), mx = am > an ? am : an;
     vf_assume(am <= hi_of<C> && an <= hi_of<C>); // std: |m| and |n| representable in the common type
     slice<Q4>(m);
     VF_KNOWN(C14_gcd_negative, m < 0 || n < 0);
@@ -294,10 +294,11 @@ template <typename U, ct_t<T, U> (*KF)(T, U), int Q4> static void gcd_case()
     if (am == 0 && an == 0) { if constexpr (Q4 < 0) vf_witness("0,0"); vf_assert(g == 0, "gcd(0, 0) == 0"); }
     else {
         if constexpr (Q4 < 0) { if (an == 0) vf_witness("n == 0"); if (am == 0) vf_witness("m == 0"); }
-        vf_assert(g > 0, "gcd > 0");
-        if (g > 0) {
-            vf_assert(UC(am) % UC(g) == 0 && UC(an) % UC(g) == 0, "gcd divides |m| and |n|");
-            if (d > 0 && UC(am) % UC(d) == 0 && UC(an) % UC(d) == 0) { if (d == g && g > 1) vf_witness("nontrivial divisor"); vf_assert(d <= g, "every common divisor is <= gcd"); }
+        bool rng = g > 0 && (i128)g <= mx;
+        vf_assert(rng, "0 < gcd <= max(|m|, |n|)");
+        if (rng) {
+            vf_assert(R(am) % R(g) == 0 && R(an) % R(g) == 0, "gcd divides |m| and |n|");
+            if (d > 0 && R(am) % d == 0 && R(an) % d == 0) { if (d == R(g) && g > 1) vf_witness("nontrivial divisor"); vf_assert(d <= R(g), "every common divisor is <= gcd"); }
         }
     }
 }
@@ -312,14 +313,16 @@ template <typename U, ct_t<T, U> (*KF)(T, U), int Q4> static void gcd_std_case()
     vf_assert(KF(m, n) == std::gcd(m, n), "gcd == std");
 }
 // least common multiple: 0 if an operand is 0; otherwise a positive common multiple of |m| and |n| that is <= every representable
-// common multiple c (symbolic). Assuming that such a c exists is exactly the std precondition "the lcm is representable".
+// common multiple c (symbolic; c <= |m| * |n| without loss of generality). Assuming that such a c exists is exactly the std
+// precondition "the lcm is representable in the common type".
 template <typename U, ct_t<T, U> (*KF)(T, U), int Q4, int WU, bool STD> static void lcm_case()
 {
-    typedef ct_t<T, U> C; typedef std::make_unsigned_t<C> UC; typedef decltype(T() * U()) P; T m = nd<T>(); U n = nd<U>(); C c = nd<C>();
+    typedef ct_t<T, U> C; typedef decltype(T() * U()) P; typedef uint_bits<(W + WU < int(8 * sizeof(C)) ? W + WU : int(8 * sizeof(C)))> R;
+    T m = nd<T>(); U n = nd<U>(); R c = nd<R>();
     i128 am = absi(m), an = absi(n);
     vf_assume(am <= hi_of<C> && an <= hi_of<C>);
     slice<Q4>(m);
-    if (am != 0 && an != 0) vf_assume(c > 0 && UC(c) % UC(am) == 0 && UC(c) % UC(an) == 0);
+    if (am != 0 && an != 0) vf_assume(c > 0 && (i128)c <= hi_of<C> && c % R(am) == 0 && c % R(an) == 0);
     VF_KNOWN(C14_lcm_zero_zero, m == 0 && n == 0);
     VF_KNOWN(C14_lcm_negative, m < 0 || n < 0);
     VF_KNOWN(C14_gcd_negative, m < 0 || n < 0);
@@ -329,15 +332,18 @@ template <typename U, ct_t<T, U> (*KF)(T, U), int Q4, int WU, bool STD> static v
     if constexpr (STD) { if (am > 1 && an > 1) vf_witness("both > 1"); vf_assert(l == std::lcm(m, n), "lcm == std"); }
     else if (am == 0 || an == 0) { if constexpr (Q4 <= 0) vf_witness("zero operand"); vf_assert(l == 0, "lcm == 0 when an operand is 0"); }
     else {
-        if (c == l && UC(l) > UC(am) && UC(l) > UC(an)) vf_witness("proper multiple");
-        vf_assert(l > 0 && UC(l) % UC(am) == 0 && UC(l) % UC(an) == 0, "lcm is a positive common multiple of |m| and |n|");
-        vf_assert(l <= c, "lcm <= every representable common multiple");
+        bool rng = l > 0 && (i128)l <= (i128)c;
+        vf_assert(rng, "0 < lcm <= every representable common multiple");
+        if (rng) {
+            if (c == R(l) && (i128)l > am && (i128)l > an) vf_witness("proper multiple");
+            vf_assert(R(l) % R(am) == 0 && R(l) % R(an) == 0, "lcm is a common multiple of |m| and |n|");
+        }
     }
 }
 #define GCDLCM(NU, U, SU, WU)                                                                                          \
-    Q q_gcd_##NU() { gcd_case<U, k_gcd_##NU, -1>(); }                                                                  \
-    Q q_gcd_##NU##_q0() { gcd_case<U, k_gcd_##NU, 0>(); } Q q_gcd_##NU##_q1() { gcd_case<U, k_gcd_##NU, 1>(); }        \
-    Q q_gcd_##NU##_q2() { gcd_case<U, k_gcd_##NU, 2>(); } Q q_gcd_##NU##_q3() { gcd_case<U, k_gcd_##NU, 3>(); }        \
+    Q q_gcd_##NU() { gcd_case<U, k_gcd_##NU, -1, WU>(); }                                                                  \
+    Q q_gcd_##NU##_q0() { gcd_case<U, k_gcd_##NU, 0, WU>(); } Q q_gcd_##NU##_q1() { gcd_case<U, k_gcd_##NU, 1, WU>(); }        \
+    Q q_gcd_##NU##_q2() { gcd_case<U, k_gcd_##NU, 2, WU>(); } Q q_gcd_##NU##_q3() { gcd_case<U, k_gcd_##NU, 3, WU>(); }        \
     Q q_gcd_std_##NU() { gcd_std_case<U, k_gcd_##NU, -1>(); }                                                          \
     Q q_lcm_##NU() { lcm_case<U, k_lcm_##NU, -1, WU, false>(); }                                                       \
     Q q_lcm_##NU##_q0() { lcm_case<U, k_lcm_##NU, 0, WU, false>(); } Q q_lcm_##NU##_q1() { lcm_case<U, k_lcm_##NU, 1, WU, false>(); } \
@@ -402,7 +408,7 @@ Q q_lcm_pow2()
     unsigned a = vf_nd_u8(), b = vf_nd_u8(); vf_assume(a < W - S && b < W - S);
     T m = T(u64(1) << a), n = T(u64(1) << b);
     VF_KNOWN(C14_lcm_intermediate_overflow, mulw<2 * W>(m, n) > hi_of<prod_t>);
-    if (a + b == 8 * sizeof(prod_t) - std::is_signed_v<prod_t> - 1) vf_witness("largest product");
+    if (a == b && a >= 1) vf_witness("equal exponents");
     vf_assert(bits(SELF(k_lcm_)(m, n)) == (u64(1) << (a > b ? a : b)), "lcm(2^a, 2^b) == 2^max(a, b)");
 }
 
